@@ -105,6 +105,7 @@ func init() {
 	// control / control_orig / control_bits: args = pg_control image
 	core.Register("control", func(args []string) string { return parseControl(unhex(args[0])) })
 	core.Register("control_orig", func(args []string) string { return parseControl(unhex(args[0])) })
+	core.Register("control_any", func(args []string) string { return parseControl(unhex(args[0])) })
 	// control_bits: args = image, first bit, count: for each bit position in [first, first+count) of the first
 	// 292 bytes, flip it and report the CRC verdict; output = verdict of the unmodified image, then one char per bit
 	core.Register("control_bits", func(args []string) string {
